@@ -244,6 +244,19 @@ where
         }
         self.storage.batch_set(updates).await?;
 
+        // Read the new root hash while the transaction is still open (the root node is served from
+        // the transaction log), so that nothing can fail once the new epoch has been committed
+        let root_hash = match current_azks
+            .get_root_hash_safe::<TC, _>(&self.storage, next_epoch)
+            .await
+        {
+            Ok(root_hash) => root_hash,
+            Err(err) => {
+                let _ = self.storage.rollback_transaction();
+                return Err(err);
+            }
+        };
+
         // Commit the transaction
         info!("Committing transaction");
         match self.storage.commit_transaction().await {
@@ -256,10 +269,6 @@ where
                 return Err(AkdError::Storage(err));
             }
         };
-
-        let root_hash = current_azks
-            .get_root_hash_safe::<TC, _>(&self.storage, next_epoch)
-            .await?;
 
         Ok(EpochHash(next_epoch, root_hash))
     }
